@@ -1,10 +1,12 @@
 #!/bin/sh
 # usage: seed_eval.sh <seeded-dir-name> <PROP> [tier]   e.g. C03-A C03
-# Applies /verif/seeded/<dir>/patch.diff to /repo, runs the property's check, reverts /repo.
+# Applies /verif/seeded/<dir>/patch.diff in a scratch worktree of /repo HEAD and runs the property's
+# check against it (VERIF_REPO), leaving /repo untouched; removes the worktree afterwards.
 D=/verif/seeded/$1; P=$2; T=${3:-quick}
-cd /repo && git status --short | grep -v '^??' && { echo "/repo not clean"; exit 2; }
-git -C /repo apply $D/patch.diff || exit 2
-cd /verif && ./check $P --tier $T --no-evidence > /tmp/seed/eval_$1_$P.log 2>&1; RC=$?
-git -C /repo checkout -- .
-echo "EVAL $1 $P tier=$T rc=$RC $(grep -c "^VIOLATION" /tmp/seed/eval_$1_$P.log) violation lines; $(grep "^VIOLATION" /tmp/seed/eval_$1_$P.log | head -3 | tr "\n" " ")" >> $D/eval.txt
-echo "EVAL $1 $P tier=$T rc=$RC $(grep -c '^VIOLATION' /tmp/seed/eval_$1_$P.log) violation lines"; grep "^VIOLATION\|^INCONCLUSIVE" /tmp/seed/eval_$1_$P.log | head -5
+W=/tmp/seedrepo/$1_$P
+rm -rf $W; git -C /repo worktree prune; git -C /repo worktree add --detach $W HEAD -q || exit 2
+git -C $W apply $D/patch.diff || { echo "patch does not apply"; git -C /repo worktree remove --force $W; exit 2; }
+cd /verif && VERIF_REPO=$W ./check $P --tier $T --no-evidence > /tmp/seed/eval_$1_$P.log 2>&1; RC=$?
+git -C /repo worktree remove --force $W
+echo "EVAL $1 $P tier=$T rc=$RC $(grep -c '^VIOLATION' /tmp/seed/eval_$1_$P.log) violation lines; $(grep '^VIOLATION' /tmp/seed/eval_$1_$P.log | head -3 | tr '\n' ' ')" >> $D/eval.txt
+echo "EVAL $1 $P tier=$T rc=$RC $(grep -c '^VIOLATION' /tmp/seed/eval_$1_$P.log) violation lines"; grep "^VIOLATION\|^INCONCLUSIVE" /tmp/seed/eval_$1_$P.log | head -4
